@@ -44,6 +44,15 @@ def uLine (ws : List String) : String := Id.run do
       if (impl.slice (a.toNat?.getD 0) (b.toNat?.getD 0)).content ≠ parseCps c then issues := issues ++ [s!"ORACLE C17 {op} differs from the content's range"]
     | ["sliceincl", a, b, c] =>
       if (impl.slice (a.toNat?.getD 0) (b.toNat?.getD 0 + 1)).content ≠ parseCps c then issues := issues ++ [s!"ORACLE C17 {op} differs from the content's range"]
+    | ["sl", fi, lo, hi, vv, c] =>
+      let bnd := fun (t : String) => if t = "u" then Bnd.unb else if t.startsWith "i" then Bnd.incl ((t.drop 1).toNat?.getD 0) else Bnd.excl ((t.drop 1).toNat?.getD 0)
+      let want := impl.slice (bnd lo).startOf ((bnd hi).endOf impl.len)
+      let fname := (["Utf32Str::slice", "Utf32Str::slice_u32", "Utf32String::slice", "Utf32String::slice_u32"][fi.toNat?.getD 9]?).getD "?"
+      if want.content ≠ parseCps c || (vv = "A") ≠ (impl.rep = .ascii) then
+        issues := issues ++ [s!"ORACLE C17 {fname}(({lo}, {hi})) = {vv}:{c} is not the range of the content those bounds denote ({want.content})"]
+      match Gen.sliceBoundsAll[fi.toNat?.getD 9]? with
+      | some sb => if (impl.sliceVia sb (bnd lo) (bnd hi)).content ≠ parseCps c then issues := issues ++ [s!"DIFF {fname}(({lo}, {hi})): model {(impl.sliceVia sb (bnd lo) (bnd hi)).content} impl {c}"]
+      | none => issues := issues ++ [s!"bad-op {op}"]
     | ["slicefull", c] => if parseCps c ≠ impl.content then issues := issues ++ [s!"ORACLE C17 slice(..) differs from the content"]
     | _ => issues := issues ++ [s!"bad-op {op}"]
   if issues.isEmpty then "ok" else " ## ".intercalate issues
